@@ -25,23 +25,23 @@ CHECKS = {
    note='Trusted: GCC ASan/UBSan; float division by zero excluded; uninitialised reads are outside ASan/UBSan.'),
  'C06': dict(level='model_checking', ref='DESIGN.md §2 C06', engine='c06',
    technique='complete enumeration of the finite request grid; acceptance compared cell by cell with the transpiled reference GENBBsub (kernel stubbed) and README rules',
-   text='The complete product (54 names x levels -1..17 x modes 0..25 x 4 window variants = 106704 requests) is issued to fresh decay0_generator instances; accept/reject is compared with the reference rules evaluated on the transpiled Fortran; rejected requests must throw, stay un-initialised and refuse to shoot; accepted ones must produce events satisfying the C03/C04 invariants; mode labels round-trip.',
+   text='The complete product (54 names x levels -1..17 x modes 0..25 x 4 window variants = 106704 requests) is issued to fresh decay0_generator instances; accept/reject is compared with the reference rules evaluated on the transpiled Fortran; rejected requests must throw, stay un-initialised and refuse to shoot; accepted ones must produce events satisfying the C03/C04 invariants; mode labels round-trip and no other string (prefixes, extensions, case variants) resolves to a mode.',
    note='Trusted: transpiled GENBBsub rules; gA acceptance against synthetic datasets; README rule for mode 20 (ground state only) overrides the Fortran coercion.'),
  'C09': dict(level='model_checking', ref='DESIGN.md §2 C09', engine='c09',
    technique='explicit-state breadth-first search over public API call sequences, histories replayed on fresh objects, conformance with a reference state machine on every transition',
-   text='All sequences of an 18-operation alphabet (setters with valid and invalid arguments, add_operation(MDL|null), initialize, shoot, reset, destroy+new) up to depth 7 (quick) / 8 (thorough, with and without gA data) are executed on real decay0_generator objects; after every transition exception/no-exception, every getter, defaults after reset and a probe shot against a fresh instance are compared with a boring reference machine whose validity predicate is the transpiled reference rule set.',
+   text='All sequences of a ~24-operation alphabet (setters with valid and invalid arguments incl. a dropped window, add_operation(MDL|null), initialize, shoot, reset, destroy+new, plus three auxiliary entry points as leaves) up to depth 7 (quick) / 8 (thorough, with and without gA data), started from a new object and from four states reached by a refused initialisation, are executed on real decay0_generator objects; after every transition exception/no-exception, every getter, defaults after reset (all working parameters), the working parameters after every successful initialisation and a probe shot against a fresh instance are compared with a boring reference machine whose validity predicate is the transpiled reference rule set.',
    note='Trusted: reference machine written from the literal property text; merge of states justified by the reference state plus a sticky refused-operation mark; bounds 2 operations / 2 shots per history.'),
  'C07': dict(level='exploration', ref='DESIGN.md §2 C07', engine='c07',
    technique='exhaustive enumeration of prior-activity histories up to a depth (replayed on fresh objects), differential probe shots against the canonical history',
-   text='For all 69 background names and 20+ double-beta configurations (every isotope in the thorough tier), every history up to depth 3 (4 thorough) over 11 kinds of prior API activity (event reuse with exact capacities, reset/re-initialise, other instances alive or destroyed, rebuild) is followed by 9 probe shots with recorded deviate streams that must equal the canonical first-shot-of-a-fresh-generator event bit for bit; two predecessor-first histories per configuration in fresh processes (a sibling configuration runs first); collision histories: every ordered pair of beta-sampler calls of different decay schemes that agree in Q and differ elsewhere (from the model call trace), predecessor shot before every port shot of the successor, successor explored against the history-free model; working parameters compared after re-initialisation; one 1e4 (1e6 thorough) shot history per configuration.',
+   text='For all 69 background names and 20+ double-beta configurations (every isotope in the thorough tier), every history up to depth 3 (4 thorough) over 11 kinds of prior API activity (event reuse with exact capacities and with/without stale label and event time, reset/re-initialise, other instances alive or destroyed, rebuild) is followed by 9 probe shots with recorded deviate streams that must equal the canonical first-shot-of-a-fresh-generator event bit for bit; two predecessor-first histories per configuration in fresh processes (a sibling configuration runs first); collision histories: every ordered pair of beta-sampler calls of different decay schemes that agree in Q and differ elsewhere (from the model call trace), predecessor shot before every port shot of the successor, successor explored against the history-free model; working parameters compared after re-initialisation; one 1e4 (1e6 thorough) shot history per configuration.',
    note='Trusted: bit-for-bit comparison; the long history is a single deterministic history, not exhaustive.'),
  'C11': dict(level='model_checking', ref='DESIGN.md §2 C11', engine='c11',
    technique='explicit-state enumeration of (stream, file partition, window, call pattern) against a list-slice reference model on real files; exhaustive value-alphabet round trip',
-   text='Every stream of N<=4 (7 thorough) events, every split over 1-3 files including empty files, every (start,max) in 0..N+1 and every has_next/load call pattern is executed on a real event_reader; each answer is compared with the slice model events[start:start+max]. Round trip of ~10k (40k) enumerated events over all six particle species through the CLI record format to 15 digits.',
+   text='Every stream of N<=4 (7 thorough) events, every split over 1-3 files including empty files, every (start,max) in 0..N+1 plus max = INT_MAX, every has_next/load call pattern (with a fresh event object per load and with one shared object) is executed on a real event_reader; each answer is compared with the slice model events[start:start+max]. Round trip of ~10k (40k) enumerated events over all six particle species through the CLI record format to 15 digits.',
    note='Trusted: the record layout copied from the driver; loads are only issued after a positive has_next_event.'),
  'C10': dict(level='exploration', ref='DESIGN.md §2 C10', engine='c10',
    technique='exhaustive enumeration of the finite product events x cone setups x entry points x deviate grid with geometric invariants; differential generator-level runs',
-   text='1.4M (quick) / ~6M (thorough) applications of the real operation over the full product of synthetic and generated events, cone axes, apertures, rectangular half-angle pairs, filters (incl. positrons), ranks, error flag and all five configuration entry points (every label of the label-based one must act like the corresponding species code), with both tails of the two cone deviates; every application is checked for count/species/time/|p| preservation, rigid proper rotation, cone or rectangular-window membership (frame built independently), untouched unselected particles, and the nothing-selected rules; generator-level runs compare the decay sample with and without the operation.',
+   text='1.4M (quick) / ~6M (thorough) applications of the real operation over the full product of synthetic and generated events, cone axes, apertures, rectangular half-angle pairs, filters (incl. positrons), ranks, error flag and all five configuration entry points (every label of the label-based one must act like the corresponding species code), with both tails of the two cone deviates; every application is checked for count/species/time/|p| preservation, rigid proper rotation, cone or rectangular-window membership (frame built independently), untouched unselected particles, and the nothing-selected rules; generator-level runs compare the decay sample with and without the operation and require the result to be the plain decay followed by the operation applied directly with the next deviates.',
    note='Trusted: independent cone-frame construction (Rz(phi)Ry(theta)); tolerances stated in the evidence.'),
  'C16': dict(level='exploration', ref='DESIGN.md §2 C16', engine='c16',
    technique='exhaustive enumeration of monomial/degree/interval/panel grids against closed forms (exactness by linearity) with negative controls',
@@ -65,11 +65,11 @@ CHECKS = {
    note='Trusted: process kill only (no reordering of completed writes, no ENOSPC); refusal rules from README/--help.'),
  'C17': dict(level='exploration', ref='DESIGN.md §2 C17', engine='c17',
    technique='exhaustive enumeration of a configuration grid on the unmodified Geant4 extension sources compiled against a minimal Geant4 stand-in; differential against the core API',
-   text='The unmodified primary_generator_action.cc and unique_point_vertex_generator.cc are compiled against stand-in Geant4 headers and driven over ~4000 (quick) configurations (categories, valid/invalid/unpublished nuclides, seeds, modes, levels, windows, MDL, three vertex-generator situations; on a sub-grid also a user-changed gun multiplicity and re-configuration of one action object after five other configurations); refusal is compared with the core tools (driver rules + decay0_generator::initialize run in-process) and every handed-over primary with the particle of an identically seeded core generator (species, momentum in MeV, time in seconds, vertex).',
+   text='The unmodified primary_generator_action.cc and unique_point_vertex_generator.cc are compiled against stand-in Geant4 headers and driven over ~4000 (quick) configurations (categories, valid/invalid/unpublished nuclides, seeds, modes, levels, windows, MDL, three vertex-generator situations; on a sub-grid also a user-changed gun multiplicity and re-configuration of one action object after five other configurations); refusal is compared with the core tools (driver rules + decay0_generator::initialize run in-process) (refused requests also after re-configuration with or without an explicit ApplyConfiguration) and every handed-over primary with the particle of an identically seeded core generator (species, momentum in MeV, time in seconds, vertex).',
    note='Trusted: the stand-in reproduces G4ParticleGun::SetParticleMomentum semantics and CLHEP unit values; real Geant4 is not available offline.'),
  'C15': dict(level='fault_enumeration', ref='DESIGN.md §2 C15', engine='c15',
    technique='bounded exhaustive mutation of small seed files (all truncations, all token x adversarial-alphabet replacements, line deletions/duplications, argv prefixes), each mutant loaded in a forked child of the sanitizer build',
-   text='Every byte-prefix truncation, every token replaced by each of 18 adversarial strings, every integer token by every integer in -2..30, every token duplicated and every line deleted/duplicated/extended of a two-event file, a gA p.d.f. table, its encoder-written c.d.f. table, the three catalogue lists and two argument vectors (~5000 mutants quick; pairs of replacements thorough) is fed to the real loader in a forked child of the ASan+UBSan+_GLIBCXX_ASSERTIONS build with a time limit and a single-allocation cap; allowed outcomes: exception, or a load satisfying the loader\'s validity predicate (incl. every stored identifier inside its enumeration); a gA object whose load was refused must then load the unmutated dataset and sample exactly like a new object.',
+   text='Every byte-prefix truncation, every token replaced by each of 18 adversarial strings, every integer token by every integer in -2..30, every token duplicated and every line deleted/duplicated/extended of a two-event file, a gA p.d.f. table, its encoder-written c.d.f. table, the three catalogue lists and two argument vectors (~5000 mutants quick; pairs of replacements thorough) is fed to the real loader in a forked child of the ASan+UBSan+_GLIBCXX_ASSERTIONS build with a time limit and a single-allocation cap (event files are read from the start and through the skip path of a later start); allowed outcomes: exception, or a load satisfying the loader\'s validity predicate (incl. every stored identifier inside its enumeration); a gA object whose load was refused must then load the unmutated dataset and sample exactly like a new object.',
    note='Trusted: GCC sanitizers, libstdc++ assertions; validity predicates stated in the evidence.'),
 }
 NOT_YET = {
